@@ -30,4 +30,5 @@ def make_case(tid, prog, cfgs, faults):
     """prog may carry "skips": [[hook name, element id], ...] -- hooks that call element.skip() at run time"""
     flat = G.flatten(prog)
     return {"tid": tid, "prog": tla_prog(flat), "features": flat["features"], "cfgs": [tla_cfg(c) for c in cfgs],
-            "faults": [list(f) for f in faults], "skips": tla_skips(prog.get("skips"))}, flat
+            "faults": [list(f) for f in faults], "skips": tla_skips(prog.get("skips")),
+            "hookcl": bool(prog.get("hookcl"))}, flat
